@@ -270,7 +270,7 @@ type round struct {
 	mu     sync.RWMutex
 	objs   map[*lavasession.ConsumerSessionsWithProvider]*provObj
 	all    []*provObj
-	byAddr map[string]*provObj // current generation, by address (regular and backup)
+	byAddr map[uint64]map[string]*provObj // pairing epoch -> address -> provider object (regular and backup)
 	gen    int
 	epoch  uint64
 
@@ -419,8 +419,9 @@ func (rd *round) newPairing(rng *mrand.Rand, epoch uint64, register bool) (map[u
 	if register {
 		rd.gen = gen
 		rd.epoch = epoch
+		rd.byAddr[epoch] = map[string]*provObj{}
 		for _, po := range objs {
-			rd.byAddr[po.Addr] = po
+			rd.byAddr[epoch][po.Addr] = po
 		}
 	} else {
 		for _, po := range objs {
@@ -440,10 +441,11 @@ func (rd *round) lookup(cswp *lavasession.ConsumerSessionsWithProvider) *provObj
 	return rd.objs[cswp]
 }
 
-func (rd *round) current(addr string) *provObj {
+// at returns the provider object that the pairing of the given epoch holds for the address
+func (rd *round) at(epoch uint64, addr string) *provObj {
 	rd.mu.RLock()
 	defer rd.mu.RUnlock()
-	return rd.byAddr[addr]
+	return rd.byAddr[epoch][addr]
 }
 
 func (rd *round) registerVe(v uint64) {
@@ -499,8 +501,8 @@ func (rd *round) updateProviders(w int, rng *mrand.Rand, stale bool) {
 	}
 	heldBefore := rd.held.Load()
 	epoch := cur + 20
-	pairing, backup, _ := rd.newPairing(rng, epoch, true)
 	rd.begin()
+	pairing, backup, _ := rd.newPairing(rng, epoch, true)
 	rd.h.updates.Add(1)
 	go func() {
 		defer rd.h.updates.Done()
@@ -643,7 +645,7 @@ func (rd *round) getSessions(w int, rl *relay) []*heldSession {
 		// excluded, supporting provider existed whose only obstacle was the CU cap
 		if isolated && s1.Epoch == s2.Epoch {
 			for _, q := range s1.Valid {
-				po := rd.current(q)
+				po := rd.at(s1.Epoch, q)
 				if _, un := unwanted[q]; un || po == nil || !po.supports(rl.addon, rl.extNames) || !contains(s2.Valid, q) {
 					continue
 				}
@@ -744,7 +746,7 @@ func (rd *round) getSessions(w int, rl *relay) []*heldSession {
 					if _, got := css[q]; got {
 						continue
 					}
-					po := rd.current(q)
+					po := rd.at(s1.Epoch, q)
 					if po == nil || !po.supports(rl.addon, rl.extNames) {
 						continue
 					}
@@ -771,7 +773,7 @@ func (rd *round) getSessions(w int, rl *relay) []*heldSession {
 					// diagnostics for the witness: what the selection layers know about every valid candidate
 					diag := map[string]any{}
 					for _, q := range s1.Valid {
-						po := rd.current(q)
+						po := rd.at(s1.Epoch, q)
 						if po == nil {
 							continue
 						}
@@ -1223,7 +1225,7 @@ func (h *harness) runRound(r int) bool {
 	optimizer := provideroptimizer.NewProviderOptimizer(provideroptimizer.StrategyBalanced, 0, 1, nil, "dontcare")
 	optimizer.SetDeterministicSeed(h.seed*1000 + int64(r))
 	csm := lavasession.NewConsumerSessionManager(&lavasession.RPCEndpoint{NetworkAddress: "stub", ChainID: "LAV1", ApiInterface: "jsonrpc", HealthCheckPath: "/"}, optimizer, nil, "lava@c28consumer", lavasession.NewActiveSubscriptionProvidersStorage())
-	rd := &round{h: h, p: p, csm: csm, opt: optimizer, objs: map[*lavasession.ConsumerSessionsWithProvider]*provObj{}, byAddr: map[string]*provObj{}, cnt: map[string]int64{}}
+	rd := &round{h: h, p: p, csm: csm, opt: optimizer, objs: map[*lavasession.ConsumerSessionsWithProvider]*provObj{}, byAddr: map[uint64]map[string]*provObj{}, cnt: map[string]int64{}}
 	ok := rd.run(rng)
 
 	// merge counters, classify the round
